@@ -243,8 +243,12 @@ pub fn check(sc: &Scenario, res: &RunResult) -> Vec<Violation> {
                 }
             }
             if let Some((nproc, family, model, stepping, vendor)) = sc.tags.iter().find_map(|t| t.strip_prefix("cpu:")).and_then(parse_cpu_tag) {
-                if s.nproc as u64 != nproc {
-                    out.push(v("C18", "sysinfo-processor-count", format!("{} != {}", s.nproc, nproc)));
+                // processors that are offline (hotplug, SMT switched off) are not listed in /proc/cpuinfo;
+                // the others keep their ids. "The processor count of the machine" is either reading of
+                // it - the processors present, or the ones online - but nothing else.
+                let online = w.cpuinfo.as_ref().map(|c| c.0.split(|b| *b == b'\n').filter(|l| l.starts_with(b"processor")).count() as u64).unwrap_or(nproc);
+                if s.nproc as u64 != nproc && s.nproc as u64 != online {
+                    out.push(v("C18", "sysinfo-processor-count", format!("{} recorded; {} processors present, {} online", s.nproc, nproc, online)));
                 }
                 if s.level as u64 != family {
                     out.push(v("C18", "sysinfo-family", format!("{} != {}", s.level, family)));
